@@ -1707,8 +1707,13 @@ pub fn codegen(
         } else {
             // There were segments, so we have emitted something.
 
-            // Did we have the exact same errors in the previous pass? Then we need to bail.
-            if !errors.is_empty() && errors == prev_errors {
+            // Did we have the exact same errors in the previous pass? Then we need to bail. Unless symbols are still moving,
+            // since an error may be caused by a value that is not final yet (e.g. the start of a segment that depends on
+            // other segments, which takes a pass per dependency to settle).
+            if !errors.is_empty()
+                && errors == prev_errors
+                && (ctx.changed.is_empty() || ctx.pass_idx >= MAX_UNSTABLE_PASSES)
+            {
                 return (Some(ctx), errors);
             }
 
